@@ -375,6 +375,25 @@ pub fn gen_obj(rng: &mut Rng) -> GenObj {
 /// A mesh far larger than any fixed-width index or buffer a parser might be tempted
 /// to use: more than 65 536 vertices, one face on the last of them.
 pub fn gen_obj_jumbo(rng: &mut Rng) -> GenObj {
+    if rng.chance(1, 3) {
+        // many faces over few vertices: more than 2^16 triangles
+        let nv = rng.usize(3, 40);
+        let nt = rng.usize(65_537, 70_000);
+        let mut text = Vec::with_capacity(nt * 8);
+        let mut verts = vec![];
+        for i in 0..nv {
+            text.extend_from_slice(format!("v {i} 0.5 -{i}\n").as_bytes());
+            verts.push([i as f32, 0.5, -(i as f32)].map(f32::to_bits));
+        }
+        let mut tris = Vec::with_capacity(nt);
+        for i in 0..nt {
+            let tri = [i % nv, (i / 7) % nv, nv - 1 - (i % nv)];
+            text.extend_from_slice(format!("f {} {} {}\n", tri[0] + 1, tri[1] + 1, tri[2] + 1).as_bytes());
+            tris.push(tri);
+        }
+        let len = text.len();
+        return GenObj { text, verts, tris, hot: vec![0, len / 2, len], lines: vec![], mutated: false };
+    }
     let nv = rng.usize(65_537, 70_000);
     let mut text = Vec::with_capacity(nv * 10);
     let mut verts = Vec::with_capacity(nv);
